@@ -31,9 +31,14 @@ MULTS = [1, 2, 3, 6, 9]
 REL = 1e-9
 
 
+# the main-group elements (groups 1, 2, 13-18) are a fact of the periodic table, not part of the parameter table: the reference
+# carries its own list and never reads (or iterates) the one of the code under observation
+MAIN_GROUP = frozenset("H He Li Be B C N O F Ne Na Mg Al Si P S Cl Ar K Ca Ga Ge As Se Br Kr Rb Sr In Sn Sb Te I Xe Cs Ba Tl Pb Bi Po At Rn Fr Ra".split())
+
+
 def T():
-    from mofun.uff4mof import UFF4MOF, MAIN_GROUP_ELEMENTS
-    return UFF4MOF, set(MAIN_GROUP_ELEMENTS)
+    from mofun.uff4mof import UFF4MOF
+    return UFF4MOF, MAIN_GROUP
 
 
 def types():
